@@ -95,8 +95,14 @@ def processClosed (deadline : Option Int) (it : Iter) : Outcome :=
   let achieved := ach1 && it.patchInit && !(it.required && deadline.isSome && it.paused)
   let tB : Int := match slept with | some s => s.tEnd | none => t0
   let ran := it.required && achieved
+  let wait : Option Int :=
+    if it.required && !achieved && !it.paused
+    then (match deadline with
+          | some d => some (max 0 (d - tB))
+          | none => if !it.patchInit then some 0 else none)
+    else none
   { given := deadline, low := low, slept := slept, achieved := achieved,
-    held := it.required && !achieved,
+    held := it.required && !achieved, left := tB, wait := wait,
     entered := if ran then some tB else none,
     handlers := if ran && !it.gone then some tB else none }
 
@@ -124,6 +130,40 @@ theorem process_none (it : Iter) :
     (process none it).slept = none ∧ (process none it).achieved = it.patchInit ∧
       (process none it).held = (it.required && !it.patchInit) := by
   simp [process_closed, processClosed]
+
+/-- The waiting delay of the early return, in terms of the other outputs: reported exactly by the held-back
+    iterations of an operator that is not paused; what is left till the deadline when the consistency block is
+    left (0 when it is over) while a version is awaited, else 0 (only a pending patch holds back then). -/
+theorem process_wait (dl : Option Int) (it : Iter) :
+    (process dl it).wait =
+      if (process dl it).held && !it.paused
+      then some (match dl with | some d => max 0 (d - (process dl it).left) | none => 0) else none := by
+  rw [process_closed]
+  cases dl with
+  | some d => rfl
+  | none =>
+    unfold processClosed
+    cases hr : it.required <;> cases hi : it.patchInit <;> cases hz : it.paused <;> simp [hr, hi, hz]
+
+theorem process_held_eq (dl : Option Int) (it : Iter) :
+    (process dl it).held = (it.required && !(process dl it).achieved) := by
+  rw [process_closed]; rfl
+
+theorem process_entered_eq (dl : Option Int) (it : Iter) :
+    (process dl it).entered = if it.required && (process dl it).achieved then some (process dl it).left else none := by
+  rw [process_closed]; rfl
+
+/-- The early return was taken ⇒ `process_changing_cause` was not entered. -/
+theorem process_held_entered {dl : Option Int} {it : Iter} (h : (process dl it).held = true) :
+    (process dl it).entered = none := by
+  rw [process_held_eq] at h
+  rw [process_entered_eq]
+  cases hr : it.required <;> cases ha : (process dl it).achieved <;> simp [hr, ha] at h ⊢
+
+/-- `patch_initially_empty` is false exactly when something was carried over. -/
+theorem patchInit_false_iff (it : Iter) : it.patchInit = false ↔ it.carried = true := by
+  unfold Iter.patchInit
+  cases it.carried <;> simp
 
 /-- Handlers ran although a deadline was set ⇒ the deadline had been reached. -/
 theorem process_handlers_deadline {d : Int} {it : Iter} {t : Int}
@@ -253,7 +293,7 @@ theorem barrier_first_delays_witness :
       (processIn [Stage.barrier, .indexing, .watching, .spawning, .changing] dl it).low
         ≠ (processIn [Stage.barrier, .indexing, .watching, .spawning, .changing] none it).low :=
   ⟨{ ver := some ⟨104, false⟩, now := 110, dur := 0, pressure := false, wake := none, lag := 0, gone := false,
-     required := true, patchInit := true, patchMid := true, patched := none, tp := 423, tret := 423 },
+     required := true, patchMid := true, patched := none, tp := 423, tret := 423 },
    some 423, by decide⟩
 
 /-! ### worker steps -/
